@@ -137,6 +137,24 @@ def run(ctx):
             g = gates(b, ext[0].bb)
             flag_edges = [(dd, lab) for dd, lab in g if "with_length_prefix" in repr(dd)]
             ok = any(lab is True for dd, lab in flag_edges)
+            if not flag_edges:
+                # the placeholder is chosen first and appended unconditionally:
+                # `let ph: &[u8] = if self.with_length_prefix { &[0; 4] } else { &[] }; buf.clear(); buf.extend_from_slice(ph)`
+                from facts import alternatives
+
+                on_true, other_true = False, False
+                for bb_a, alt, *_g in alternatives(f, ext[0].args[1], ext[0].bb, Sym(f)):
+                    lab_ = next((lab for dd, lab in gates(b, bb_a) if "with_length_prefix" in repr(dd) and isinstance(lab, bool)), None)
+                    if lab_ is True:
+                        a_ = strip_sym(alt)
+                        while isinstance(a_, tuple) and a_ and a_[0] in ("ref", "deref", "cast"):
+                            a_ = strip_sym(a_[1])
+                        four_zeros = isinstance(a_, tuple) and a_ and a_[0] == "agg" and a_[1] == "array" and len(a_[3]) == 4 and all(strip_sym(x)[:3] == ("const", "int", 0) for x in a_[3])
+                        if _bytes_consts(alt) == ["\x00\x00\x00\x00"] or four_zeros or (isinstance(a_, tuple) and a_ and a_[0] == "repeat" and "4" in repr(a_) and "0" in repr(a_)):
+                            on_true = True
+                        else:
+                            other_true = True
+                ok = on_true and not other_true
             # no return on the prefixed edge without the extend
             for bb, dd, t_t, f_t in bool_switches(b):
                 if "with_length_prefix" in repr(dd):
